@@ -1,5 +1,6 @@
 import Driver.Proto
 import ScrapliModel.Pipe
+import ScrapliModel.Generated.SshArgv
 namespace Driver.C16
 open Scrapli Scrapli.Pipe
 
@@ -14,6 +15,10 @@ answer: `<dom> <outcomes> <left> <out> <conserved> <outIsWritten>`; outcomes = c
 handed to the peer are the successful writes in order.
 
 `c16 wrap <kind> <n> <data> <err>`: the Read wrapper of that kind on one raw result.
+
+`c16 argv <host> <port> <timeout ns> <user> <strict> <known hosts> <config> <key> <extra list> <netconf>`:
+the argument vector of the ssh binary (hex, comma separated), computed by the generated
+`buildOpenArgs`.
 
 `c16 merge <a> <b> <m>`: is `m` a merge of writer A's bytes `a` (all < 0x80) and writer B's `b`
 (all ≥ 0x80)? answer `1`/`0`.
@@ -120,6 +125,16 @@ def handleC16 : List String → String
       let r := if kd == Kind.telnet then telWrap n d err else sysWrap n d err
       s!"d{c16Hex r.1}:{c16Err r.2}"
     | _, _, _, _ => "bad-op"
+  | ["argv", host, port, tns, user, strict, kh, cfg, key, extra, nc] =>
+    -- the argv `System.open` / `openNetconf` hands to the ssh binary, from the regenerated body
+    match c16Unhex host 0, port.toInt?, tns.toInt?, c16Unhex user 0, c16Unhex kh 0, c16Unhex cfg 0, c16Unhex key 0, hexList extra with
+    | some host, some port, some tns, some user, some kh, some cfg, some key, some extra =>
+      let a : SshCfg.Args := { host := host, port := port, user := user, timeoutNs := tns }
+      let s : SshCfg.SSHArgs := { strictKey := s2b strict, knownHostsFile := kh, configFile := cfg, privateKeyPath := key }
+      let argv := Gen.SshArgv.buildOpenArgs a s extra []
+      let argv := if s2b nc then argv ++ [[45, 115], [110, 101, 116, 99, 111, 110, 102]] else argv
+      if argv.isEmpty then "." else ",".intercalate (argv.map c16Hex)
+    | _, _, _, _, _, _, _, _ => "bad-op"
   | ["merge", a, b, m] =>
     match c16Unhex a 0, c16Unhex b 0, c16Unhex m 0 with
     | some a, some b, some m => b2s (mergeVerdict a b m)
